@@ -271,10 +271,38 @@ pub fn c32_generate(seed: u64) -> CfgSpec {
     let (sch_scalars, sch_arrays, sch_pairs) = schema_keys();
     let sibling = if !sch_pairs.is_empty() && r.chance(1, 6) { Some(r.pick(sch_pairs).clone()) } else { None };
     let nfiles = if sibling.is_some() { nfiles.max(2) } else { nfiles };
+    // an eighth of the cases: three files, the middle one resets to `null` a key the first one
+    // set and the last one sets it again (the later value must win over what the null erased:
+    // for an array, the result is the last file's array alone)
+    let null_reset: Option<(&str, &[&str], bool)> = if sibling.is_none() && r.chance(1, 8) {
+        if r.chance(2, 3) {
+            let (k, v) = *r.pick(&ARRAY_KEYS[..5]);
+            Some((k, v, true))
+        } else {
+            let (k, v) = *r.pick(SCALAR_KEYS);
+            Some((k, v, false))
+        }
+    } else {
+        None
+    };
+    let nfiles = if null_reset.is_some() { 3 } else { nfiles };
     for fi in 0..nfiles {
         let mut obj = serde_json::Map::new();
         let nk = r.range(1, 6);
         let mut used: Vec<&str> = Vec::new();
+        if let Some((k, vals, is_arr)) = null_reset {
+            let v = if fi == 1 {
+                Value::Null
+            } else if is_arr {
+                let a: Value = serde_json::from_str(*r.pick(vals)).unwrap();
+                let b: Value = serde_json::from_str(*r.pick(vals)).unwrap();
+                Value::Array(if a == b { vec![a] } else { vec![a, b] })
+            } else {
+                serde_json::from_str(*r.pick(vals)).unwrap()
+            };
+            set_key(&mut obj, k, v, r.chance(1, 2));
+            used.push(k);
+        }
         if let Some((short, long)) = &sibling {
             let key = if fi == 0 { long } else if fi == 1 { short } else { long };
             if let Some(v) = schema_value(&mut r, key) {
@@ -387,6 +415,10 @@ fn c32_reference(files: &[Value]) -> Option<String> {
             }
         }
     }
+    // a key whose final value is null: what that means is not fixed by the statement
+    if merged.values().any(|v| v.is_null()) {
+        return None;
+    }
     let keys: Vec<&String> = merged.keys().collect();
     for a in &keys {
         for b in &keys {
@@ -442,6 +474,9 @@ pub fn c32_run(spec_v: &Value, verbose: bool) -> CaseReport {
         let mut flat = Vec::new();
         for f in &spec.files {
             flatten("", f, &mut flat);
+        }
+        if flat.iter().any(|(_, v)| v.is_null()) {
+            counters.insert("probe.middle_file_resets_key_to_null".to_string(), 1);
         }
         if pairs.iter().any(|(a, b)| flat.iter().any(|(k, _)| k == a) && flat.iter().any(|(k, _)| k == b)) {
             counters.insert("sibling_keys_with_shared_name_prefix".to_string(), 1);
@@ -539,7 +574,19 @@ pub struct DocSpec {
 
 pub fn c35_generate(seed: u64) -> DocSpec {
     let mut r = simcore::Rng::stream(seed, "workload");
-    let files = crate::ws::gen_workspace(&mut r, 3, 8);
+    let mut files = crate::ws::gen_workspace(&mut r, 3, 8);
+    // a third of the workspaces: one class declared both in the library root and in the main
+    // workspace (it is a main-workspace class and must be exported, whichever location is first)
+    if r.chance(1, 3) {
+        let at_front = r.chance(1, 2);
+        for (i, f) in crate::ws::group("libpart", 90).into_iter().enumerate() {
+            if at_front {
+                files.insert(i, f);
+            } else {
+                files.push(f);
+            }
+        }
+    }
     let variants = files.iter().map(|_| *r.pick(&[0u32, 0, 0, 1])).collect();
     DocSpec { seed, files, variants }
 }
